@@ -1,6 +1,7 @@
 package main
 
 import (
+	"strconv"
 	"fmt"
 	"os"
 	"path/filepath"
@@ -259,5 +260,72 @@ func c07DirectiveSpace(c *fw.Ctx) {
 					}
 				}
 			})
+		})
+}
+
+// c07ErrorPositionSpace: "syntax errors carry file, line and column" — the line is the line of the input on which
+// the offending token stands. One bad single-line entry whose fault is a token of that line, behind every prefix
+// shape that moves the line count (records, blank lines, comment lines, a record parenthesised over three lines
+// with a comment inside, a quoted string holding a line break, CR LF line ends, an $ORIGIN and a $TTL line).
+func c07ErrorPositionSpace(c *fw.Ctx) {
+	bads := []string{
+		"b. 3600 IN A 1.2.3.400", "b. 3600 IN MX ten mail.", "b. 3600 IN BOGUSTYPE x", "b. 3600 XX A 1.2.3.4", "b. 99999999999 IN A 1.2.3.4",
+		"b. 3600 IN AAAA 1.2.3.4", "b. 3600 IN SOA a. b. 1 2 3 4 x", "b. 3600 IN SRV 1 2 x target.", "$TTL abc", "$ORIGIN not..valid.",
+		"b. 3600 IN SVCB 1 . port=abc", "b. 3600 IN NID 1 zz", "b. 3600 IN LOC 91 0 0 N 0 0 0 E 0m", "b..c. 3600 IN A 1.2.3.4", "b. 3600 IN MX 10 a..b.",
+		"b. 3600 IN A 1.2.3.4 extra", "b. 3600 IN TXT \"a\" )", "b. 3600 IN NSEC c. BOGUS", "b. 3600 IN RRSIG A 8 2 3600 x y 1 example. AAAA",
+		"b. 3600 IN APL x:1.2.3.4/32", "b. 3600 IN IPSECKEY 1 1 1 zzz AAAA", "b. 3600 IN NAPTR 1 1 a b c", "b. 3600 IN A ( 1.2.3.400 )", "  3600 IN A 1.2.3.400",
+	}
+	type pre struct {
+		text string
+		recs int
+	}
+	pres := []pre{
+		{"", 0},
+		{"a. 3600 IN A 1.2.3.4\n", 1},
+		{"\n\n", 0},
+		{"; only a comment\n", 0},
+		{"a. 3600 IN A 1.2.3.4 ; trailing comment\n\n; c\n", 1},
+		{"a. 3600 IN MX 1 (\n m. ; inside\n )\n", 1},
+		{"a. 3600 IN TXT \"line one\nline two\"\n", 1},
+		{"a. 3600 IN A 1.2.3.4\r\na. 3600 IN A 1.2.3.5\r\n", 2},
+		{"$ORIGIN example.\n$TTL 60\nx A 1.2.3.4\n", 1},
+		{"a. 3600 IN A 1.2.3.4\n\n\n\n\n\n\n\n\n\n", 1},
+	}
+	c.Space("error-position", fmt.Sprintf("%d bad single-line entries (the fault is a token of that line: bad address, number, type, class, TTL, name, rdata word, unmatched ')', garbage after rdata; omitted-owner form included) behind %d prefixes that move the line count (records, blank and comment lines, a record parenthesised over three lines, a quoted string holding a line break, CR LF line ends, directives, ten blank lines) and followed by a valid line × origins {\"\", example.}: an error is reported, it names the zone file, its line is the line the bad entry stands on, its column lies within that line, the records before it were returned and the one after it was not; non-trivial: all", len(bads), len(pres)), true,
+		func(emit func(func(*fw.R))) {
+			for _, b := range bads {
+				for _, p := range pres {
+					b, p := b, p
+					emit(func(r *fw.R) {
+						r.Nontrivial()
+						text := p.text + b + "\nafter. 5 IN A 192.0.2.1\n"
+						wantLine := strings.Count(p.text, "\n") + 1
+						for _, o := range []string{"", "example."} {
+							c07Check(r, text, c07Cfg{o, false, 0}, func(res c07Res, fail func(key, what string)) {
+								if res.err == nil {
+									fail("error-position/no-error", "the entry "+strconv.Quote(b)+" must be reported as an error")
+									return
+								}
+								if res.after {
+									fail("error-position/record-after-error", "the record behind the bad entry was returned")
+								}
+								if res.nrec != p.recs && !(o == "" && strings.Contains(p.text, "\nx A")) {
+									fail("error-position/records-before", fmt.Sprintf("%d records were returned before the error, the text has %d before the bad entry", res.nrec, p.recs))
+								}
+								_, l, col, ok := c07ErrPos(res.err.Error())
+								if !ok {
+									return // reported by c07Check
+								}
+								if l != wantLine {
+									fail("error-position/line", fmt.Sprintf("the error is reported at line %d, the bad entry %s stands on line %d", l, strconv.Quote(b), wantLine))
+								} else if col < 1 || col > len(b)+1 {
+									fail("error-position/column", fmt.Sprintf("the error is reported at column %d of a line of %d characters", col, len(b)))
+								}
+							})
+						}
+						r.Sample(func() any { return c07Show(text) })
+					})
+				}
+			}
 		})
 }
